@@ -12,9 +12,6 @@ pub trait Serialize: Sized {
     open spec fn map_put(s: StoreView, m: vstd::map::Map<u64, Self>) -> StoreView { s }
     open spec fn imap_get(s: StoreView) -> vstd::map::Map<(u64, String), Self> { vstd::map::Map::empty() }
     open spec fn imap_put(s: StoreView, m: vstd::map::Map<(u64, String), Self>) -> StoreView { s }
-    /// the (user, batch) key the repo's UniqueIndex derives from a stored value
-    open spec fn idx_user(v: Self) -> String { arbitrary() }
-    open spec fn idx_batch(v: Self) -> u64 { arbitrary() }
 }
 pub trait Deserialize {}
 }
